@@ -254,7 +254,8 @@ def norm_event(ev):
     vec = ev.vector.name if ev.vector else None
     el = ev.element.name if getattr(ev, "element", None) else None
     if t == "ValueUpdate":
-        return (t, dev, vec, el, nv(ev.old_value), nv(ev.new_value))
+        # 7th field: old and new value are the very same object (certainly no change, whatever the kind)
+        return (t, dev, vec, el, nv(ev.old_value), nv(ev.new_value), ev.old_value is ev.new_value and ev.old_value is not None)
     if t == "StateUpdate":
         return (t, dev, vec, None, ev.old_state, ev.new_state)
     return (t, dev, vec, None, None, None)
